@@ -153,10 +153,12 @@ func c04Chains(c *ctx) {
 	nChains := c.argInt("chains", 2000)
 	steps := c.argInt("steps", 50)
 	starts := [][]int{{1582, 10, 4}, {1582, 10, 15}, {1582, 9, 30}, {1582, 12, 31}, {1600, 2, 29}, {2000, 2, 29}, {1900, 2, 28}, {4, 2, 29}, {2020, 1, 31}, {9000, 12, 31}, {5, 1, 1}}
+	c.manualRotate = true
 	for k := 0; k < nChains; k++ {
 		if !c.mine(k) {
 			continue
 		}
+		c.rotateIfDue()
 		var cur *calendar.Solar
 		if k%3 == 0 {
 			st := starts[c.rng.Intn(len(starts))]
